@@ -307,6 +307,107 @@ def run(ctx, report: Report) -> None:
     from .sem import no_tree_recursion_rule
     no_tree_recursion_rule(ctx, r9)
 
+    # ---- R10 -------------------------------------------------------------------------------------------------------------
+    r10 = report.rule('C08-R10', 'tuples that are ordered with < / > hold numbers only (no None, no text) in every position', floor=2)
+    ordered_tuples_rule(ctx, r10, cg, reach)
+
+
+
+def ordered_tuples_rule(ctx, rule, cg, reach):
+    """Every ordering comparison (<, >, <=, >=) in the code reachable from the matching API whose operands are tuples: the tuples
+    come from a package function (found through the local definitions of the operands); every tuple display that function can
+    return has, by the inferred types, only int / float members - a None or str member raises TypeError when the prefix before it
+    compares equal."""
+    src, tf = ctx.src, ctx.types
+    producers = {}
+    sites = 0
+    for q in sorted(reach):
+        try:
+            mod, fn = src.func(q)
+        except Exception:
+            continue
+        for n in walk_no_nested(fn):
+            if not (isinstance(n, ast.Compare) and any(isinstance(o, (ast.Lt, ast.Gt, ast.LtE, ast.GtE)) for o in n.ops)):
+                continue
+            for opnd in [n.left] + list(n.comparators):
+                t = tf.type_of(mod.name, opnd)
+                names = tf.instance_names(t) if t is not None else []
+                if not any(x in ('tuple', 'builtins.tuple') for x in names):
+                    continue
+                sites += 1
+                # the definitions of the operand in this function: calls of package functions
+                if not isinstance(opnd, ast.Name):
+                    continue
+                for st in walk_no_nested(fn):
+                    val = None
+                    if isinstance(st, ast.Assign) and any(isinstance(t_, ast.Name) and t_.id == opnd.id for t_ in st.targets):
+                        val = st.value
+                    elif isinstance(st, ast.AnnAssign) and isinstance(st.target, ast.Name) and st.target.id == opnd.id:
+                        val = st.value
+                    if isinstance(val, ast.Call):
+                        nm = call_name(val).split('.')[-1]
+                        for cq in cg.edges.get(q, ()):
+                            if cq.split('.')[-1] == nm:
+                                producers.setdefault(cq, set()).add(f'{q}: `{unparse(n)[:60]}`')
+    if not sites:
+        raise AnalysisError('no ordering comparison of tuples found in the code reachable from the matching API (match_range is expected)')
+    for cq, users in sorted(producers.items()):
+        # the tuple displays the producer can return, through local variables, conditional expressions and calls of other
+        # package functions whose result it hands on
+        displays, seen, work = [], set(), []
+
+        def returns_of(fq):
+            try:
+                m_, f_ = src.func(fq)
+            except Exception:
+                return
+            if ('fn', fq) in seen:
+                return
+            seen.add(('fn', fq))
+            for r in walk_no_nested(f_):
+                if isinstance(r, ast.Return) and r.value is not None:
+                    work.append((fq, m_, f_, r.value))
+        returns_of(cq)
+        while work:
+            fq, m_, f_, e = work.pop()
+            if isinstance(e, ast.Tuple):
+                displays.append((m_, e))
+            elif isinstance(e, ast.IfExp):
+                work += [(fq, m_, f_, e.body), (fq, m_, f_, e.orelse)]
+            elif isinstance(e, ast.Call):
+                nm = call_name(e).split('.')[-1]
+                for c2 in cg.edges.get(fq, ()):
+                    if c2.split('.')[-1] == nm:
+                        returns_of(c2)
+            elif isinstance(e, ast.Name) and (fq, e.id) not in seen:
+                seen.add((fq, e.id))
+                for st in walk_no_nested(f_):
+                    if isinstance(st, ast.Assign) and any(isinstance(t_, ast.Name) and t_.id == e.id for t_ in st.targets):
+                        work.append((fq, m_, f_, st.value))
+                    elif isinstance(st, ast.AnnAssign) and isinstance(st.target, ast.Name) and st.target.id == e.id and st.value is not None:
+                        work.append((fq, m_, f_, st.value))
+        if not displays:
+            rule.note(f'{cq}: no tuple display found among the values it returns (undecided)')
+        for mod, d in displays:
+            bad = []
+            for i, el in enumerate(d.elts):
+                t = tf.type_of(mod.name, el)
+                names = tf.instance_names(t) if t is not None else ['?']
+                if isinstance(el, ast.Starred) or not names or not all(x in ('builtins.int', 'builtins.float', 'builtins.bool') for x in names):
+                    bad.append((i, unparse(el), names))
+            rule.instance({'producer': cq, 'tuple': unparse(d)[:80], 'ordered_in': sorted(users)[:2], 'member_types_numeric': not bad},
+                          key=f'{cq}|{unparse(d)[:60]}')
+            undec = [b for b in bad if b[2] == ['?'] or 'Any' in b[2]]
+            hard = [b for b in bad if b not in undec]
+            rule.obligation(not hard)
+            if undec and not hard:
+                rule.note(f'{cq}: members {[b[1] for b in undec]} of `{unparse(d)[:60]}` have no inferred type (undecided)')
+            if hard:
+                i, text, names = hard[0]
+                rule.violation(f'{cq} tuple member `{text}`', mod.where(d),
+                               f'{cq} returns the tuple `{unparse(d)[:80]}` whose member {i} (`{text}`) can be {" or ".join(x.split(".")[-1] for x in names)}; '
+                               f'the tuple is ordered in {sorted(users)[0]}: when the members before it are equal, comparing that member '
+                               f'with a number raises TypeError out of the matching API')
 
 
 def _spin_rule(ctx, r5, mmod, reach):
